@@ -69,6 +69,15 @@ let () =
       let s = init_state (n_of_dec replica) info (auto = "1") in
       cur := Some s;
       Printf.printf "%s\t- | - | %s\n" id (state_str s)
+    | id :: "Z" :: replica :: _pnum :: nodes :: _ver :: pl :: _ ->
+      let place = if pl = "x" || pl = "panic" || pl = "" then None
+                  else Some (List.map ints (split_on ';' pl)) in
+      let (c, parts) = create_namespace (n_of_dec replica) (n_of_int (List.length (ints nodes))) place in
+      let ws = List.concat (List.mapi (fun p o -> match o with
+          | None -> []
+          | Some i -> [Printf.sprintf "{p=%d %s g=0 ok}" p (info_str i)]) parts) in
+      Printf.printf "%s\t%s | %s\n" id (match c with COk -> "ok" | CNoNode -> "nonode" | _ -> "err")
+        (if ws = [] then "-" else String.concat "" ws)
     | id :: kind :: f ->
       (match !cur with
        | None -> Printf.printf "%s\tno-sequence\n" id
